@@ -84,6 +84,43 @@ pub struct FileSpec {
     /// is an `html_block` nested in `list > list_item` instead of a child of the document's section.
     #[serde(default)]
     pub md_nest: u8,
+    /// Markdown files the diff does not mention only: the tags sit in link-reference-definition
+    /// comments (`[//]: # (<block ...>)`) instead of HTML comments. Takes effect only where
+    /// `md_ref_applies` says the file can be written that way.
+    #[serde(default)]
+    pub md_ref: bool,
+}
+
+/// Whether `f` is written with `[//]: # (...)` comments: a Markdown file outside the diff, plain
+/// tag spelling, no one-comment blocks, and no parenthesis in any attribute value unless a
+/// backslash precedes it (the title of a link reference definition ends at the first bare `)`).
+pub fn md_ref_applies(f: &FileSpec) -> bool {
+    if !f.md_ref || f.md_nest != 0 || f.spelling != 0 || f.tab_tags || !matches!(f.diff, FileDiff::None) {
+        return false;
+    }
+    let w = f.written_as();
+    if !(w.ends_with(".md") || w.ends_with(".markdown")) {
+        return false;
+    }
+    let mut ok = true;
+    for_each_block(&f.blocks, &mut |b| {
+        if b.one_comment {
+            ok = false;
+        }
+        for (_, v) in &b.attrs {
+            let mut prev = ' ';
+            for c in v.chars() {
+                if (c == '(' || c == ')') && prev != '\\' {
+                    ok = false;
+                }
+                prev = if prev == '\\' && c == '\\' { ' ' } else { c };
+            }
+            if v.ends_with('\\') {
+                ok = false;
+            }
+        }
+    });
+    ok
 }
 
 /// What the symbolic link of a `was_symlink` file pointed to.
@@ -645,6 +682,9 @@ fn comment_is_block(leader: &str, block_comments: u64, nth: usize) -> bool {
 }
 
 fn comment(leader: &str, block_comments: u64, nth: usize, tag: &str) -> String {
+    if leader == "[//]:" {
+        return format!("[//]: # ({tag})");
+    }
     if leader == "<!--" {
         return format!("<!-- {tag} -->");
     }
@@ -668,6 +708,13 @@ fn render_block(
     lines: &mut Vec<String>,
     out: &mut Vec<BlockLayout>,
 ) {
+    // a link reference definition cannot interrupt a paragraph: a blank line goes in front of it
+    let ref_gap = |lines: &mut Vec<String>| {
+        if leader == "[//]:" && lines.last().is_some_and(|l| !l.trim().is_empty() && !l.starts_with("[//]:")) {
+            lines.push(String::new());
+        }
+    };
+    ref_gap(lines);
     let slot = out.len();
     let start_line = lines.len() + 1;
     let spell = if spelling == 0 {
@@ -737,10 +784,12 @@ fn render_block(
     for l in &b.tail {
         lines.push(l.clone());
     }
+    ref_gap(lines);
     let end_line = lines.len() + 1;
     lines.push(comment(leader, block_comments, lines.len(), &format!("{}{}", lead(22), render_end_tag_spelled(spell))));
-    // content = "\n" + every line strictly between the tags, each followed by "\n"
-    let mut content = String::from("\n");
+    // content = "\n" + every line strictly between the tags, each followed by "\n" (the node of a
+    // link reference definition includes its line break: no leading "\n" there)
+    let mut content = String::from(if leader == "[//]:" { "" } else { "\n" });
     for l in &lines[start_line + tag_lines - 1..end_line - 1] {
         content.push_str(l);
         content.push('\n');
@@ -750,7 +799,7 @@ fn render_block(
 }
 
 pub fn render_file(f: &FileSpec, poisoned: bool) -> RenderedFile {
-    let leader = comment_leader(&f.written_as());
+    let leader = if md_ref_applies(f) { "[//]:" } else { comment_leader(&f.written_as()) };
     let wrapper = wrapper_for(&f.written_as());
     let mut lines: Vec<String> = Vec::new();
     let mut blocks = Vec::new();
@@ -776,6 +825,9 @@ pub fn render_file(f: &FileSpec, poisoned: bool) -> RenderedFile {
         lines.push(close.to_string());
     }
     if poisoned {
+        if leader == "[//]:" && lines.last().is_some_and(|l| !l.is_empty()) {
+            lines.push(String::new());
+        }
         lines.push(comment(leader, 0, 0, POISON_TAIL));
         lines.push("zz".to_string());
         lines.push("aa".to_string());
